@@ -13,7 +13,8 @@ PROPS = {
         mc=[dict(tla="Bandtss_MC.tla", cfg="Bandtss_MC.cfg", tier="quick", timeout=900),
             dict(tla="Bandtss_MC.tla", cfg="Bandtss_MC_nogroup.cfg", tier="quick", timeout=900),
             dict(tla="Bandtss_MC.tla", cfg="Bandtss_MC_deep.cfg", tier="thorough", timeout=3000)],
-        drive=dict(family="bandtss", nrand=dict(quick=300, thorough=5000)),
+        gen=dict(tla="Bandtss_Gen.tla", cfg="Bandtss_Gen.cfg", depth=26, num=dict(quick=200, thorough=3000), timeout=900),
+        drive=dict(family="bandtss", nrand=dict(quick=250, thorough=5000)),
         trace=dict(tla="Bandtss_Trace.tla", cfg="Bandtss_Trace_C18.cfg"),
         rule="seeded random scripts over Propose/Force (authority and non-authority, exec-time offsets inside and outside "
              "the window), Install, DkgDone(ok/malicious), SetCanSign, Request, SignAll, EndBlock(dt 0..3); non-trivial = a "
@@ -22,6 +23,7 @@ PROPS = {
     ),
     "C13B": dict(
         mc=[dict(tla="Bandtss_MC.tla", cfg="Bandtss_MC_fees.cfg", tier="quick", timeout=900)],
+        gen=dict(tla="Bandtss_Gen.tla", cfg="Bandtss_Gen_nogroup.cfg", depth=26, num=dict(quick=100, thorough=1500), timeout=900),
         drive=dict(family="bandtss", mode="fees", nrand=dict(quick=300, thorough=5000)),
         trace=dict(tla="Bandtss_Trace.tla", cfg="Bandtss_Trace_C13B.cfg"),
         rule="as C18 with mode 'fees' (more requests by paying users and by the authority, fee 0..3, limits 0..6, payer "
